@@ -181,6 +181,7 @@ def gen_cell(rseed: int, tier: str) -> Dict[str, Any]:
         "eol": f.choice(["\n", "\n", "\n", "\n", "\n", "\r\n", "\r\n", "\r"]),
         "positional": g.random() < 0.25,
         "shared_handle": f.random() < 0.3,
+        "order": g.sample(ROUTES, len(ROUTES)) if g.random() < 0.7 else list(ROUTES),
         "pristine": {str(a): E1.PREP["pristine"][f"{doc}:{a}"] for a in (0, 1)},
     }
     if f.random() < (0.2 if tier == "thorough" else 0.15):
@@ -314,7 +315,7 @@ def execute_cell(cell: Dict[str, Any], tmp: str) -> Dict[str, Any]:
 
         faulty = cell["eio_at"] is not None
         results: Dict[str, Any] = {}
-        for route in ROUTES:
+        for route in cell.get("order", ROUTES):
             ap_eff = cell["ap"] if route in OPT_ROUTES else False
             want = cell["pristine"][str(int(ap_eff))]
             before = stats.get("fault:eio-fired", 0)
@@ -487,7 +488,7 @@ class E2Driver:
         for k, simple in (("wrong_types", []), ("bom", False), ("ap", False), ("rend", "default"),
                           ("chunk", 1 << 20), ("bufsize", 8192), ("eio_at", None), ("real_fs", False),
                           ("fname", "schema.dbml"), ("file_encoding_by_caller", "utf8"), ("default_encoding", "utf-8"),
-                          ("eol", "\n"), ("positional", False), ("shared_handle", False)):
+                          ("eol", "\n"), ("positional", False), ("shared_handle", False), ("order", list(ROUTES))):
             if cell.get(k) != simple:
                 c = dict(cell)
                 c[k] = simple
